@@ -34,7 +34,12 @@
     ("all coordinates are finite" implies [xfin_polys]; this is how the NQ corollaries are
     stated.)
 
-    Exact instance [NQ] (hypothesis-free apart from the shape of the coordinates):
+    Section [FromLaws]: the four hypotheses are derived from any [L : NumLaws N] with
+      [finL L a := okX L a /\ ltX N a (pinfX N) = true]
+    ([L_Hinf], [L_Hfin_lt_pinf], [L_Hmax_fin], [L_Hmax_ninf]), giving
+      [empty_r_trivial_L], [empty_l_trivial_L] for every instance that has [NumLaws].
+
+    Exact instance [NQ] (independent of [NumLawsQ.v]; hypothesis-free apart from the shape of the coordinates):
       [finQ a := exists q, a = QF q], [coords_Q ps] := every coordinate of every point of
       every ring of [ps] is of the form [QF q];
       [NQ_Hinf], [NQ_Hfin_lt_pinf], [NQ_Hmax_fin], [NQ_Hmax_ninf], [coords_Q_xfin];
